@@ -2,8 +2,8 @@
 (* C10 - the construct x option x document matrix.  The containment model is   *)
 (* Contain.tla; this module enumerates the cells the harness executes: every    *)
 (* unsupported / malformed / failing construct the property names (and more)    *)
-(* under all 2^3 option combinations on well-shaped, empty and wrong-shaped     *)
-(* documents.  The specification fixes only the outcome class: control returns  *)
+(* under all 2^3 option combinations on well-shaped, empty, wrong-shaped, wide   *)
+(* (40 rows) and grid (rows that are arrays) documents.  The specification fixes only the outcome class: control returns  *)
 (* to the caller, with a result or an error.                                    *)
 EXTENDS Integers, Sequences, FiniteSets, TLC, Json
 
@@ -13,7 +13,7 @@ VARIABLES cell, outcome
 vars == <<cell, outcome>>
 
 Opts == SUBSET {"wrapped", "pg", "arr"}
-Docs == {"normal", "empty", "wrongshape"}
+Docs == {"normal", "empty", "wrongshape", "wide", "grid"}
 
 Init == /\ \E c \in Constructs : \E o \in Opts : \E d \in Docs : cell = [construct |-> c, opts |-> o, doc |-> d]
         /\ outcome = "running"
